@@ -35,6 +35,7 @@ func JobQueueMain(args []string) (interface{}, error) {
 	out := fs.String("out", "", "trace output (ndjson)")
 	sched := fs.String("sched", "", "schedules file (one JSON array of labels per line) for replay")
 	storeLag := fs.Bool("storelag", false, "store listener lags")
+	jobsFirst := fs.Bool("jobsfirst", false, "on restart the Job informer lists before the JobConfig informer")
 	applied := fs.Bool("applied", false, "applied-but-error faults")
 	jcsync := fs.Bool("jcsync", false, "run jobconfigcontroller")
 	crashes := fs.Bool("crash", true, "allow crash/restart")
@@ -67,7 +68,7 @@ func JobQueueMain(args []string) (interface{}, error) {
 	switch *mode {
 	case "random":
 		for r := 0; r < *runs; r++ {
-			o := JQOpts{NJC: 1 + rng.Intn(2), StoreLag: *storeLag, JCSync: *jcsync, MaxJobs: 2 + rng.Intn(*maxJobs-1)}
+			o := JQOpts{NJC: 1 + rng.Intn(2), StoreLag: *storeLag, JobsFirst: *jobsFirst, JCSync: *jcsync, MaxJobs: 2 + rng.Intn(*maxJobs-1)}
 			for c := 0; c < o.NJC; c++ {
 				o.MaxC = append(o.MaxC, 1+rng.Intn(2))
 			}
